@@ -70,34 +70,17 @@ def trace_record(r, pkg, res):
 
 
 def validate(ctx, trace, name="dstrace"):
-    """Trace_DataSection with continue-after-rejection: returns (#runs validated, rejections)."""
-    import re
-    recs = [dict(t) for t in trace]
-    ok_runs, rej, rnd = 0, [], 0
-    while recs:
-        rnd += 1
-        tp = os.path.join(ctx.work, "%s-%d.ndjson" % (name, rnd))
-        write_ndjson(tp, recs)
-        tr = ctx.tlc_trace("Trace_DataSection", "Trace_DataSection", tp, name="%s-%d" % (name, rnd), timeout=3600)
-        if tr.violated is None:
-            ok_runs += sum(len(r["runs"]) for r in recs)
-            break
-        m = abigen.parse_unmatched(tr.out, 2)
-        if tr.violated != "postcondition" or not m:
-            raise ToolError("Trace_DataSection failed unexpectedly (%s); see work/%s/tlc-%s-%d.out" % (tr.violated, ctx.pid, name, rnd))
-        l, k = m["ints"]
-        ok_runs += sum(len(r["runs"]) for r in recs[:l - 1]) + max(0, k - 1)
-        bad = recs[l - 1]
-        rej.append({"id": bad["id"], "profile": bad["profile"], "run": k, "failed": m["failed"], "expected": m["expected"],
+    """Trace_DataSection decides every build table and every run in one pass: (#runs accepted, rejections)."""
+    ok, rej = abigen.validate_trace(ctx, "Trace_DataSection", "Trace_DataSection", trace, name, shard=16, par=4)
+    out = []
+    for rj in rej:
+        bad, k = rj["rec"], rj["run"]
+        out.append({"id": bad["id"], "profile": bad["profile"], "run": k, "failed": rj["failed"], "expected": rj["expected"],
                     "cfgs": [(c["name"], c["t"]) for c in bad["cfgs"]], "abi": bad["abi"],
                     "observed": bad["runs"][k - 1] if k else None})
-        if k == 0:
-            recs = recs[l:]
-        else:
-            rest = dict(bad)
-            rest["runs"] = bad["runs"][k:]
-            recs = ([rest] if rest["runs"] else []) + recs[l:]
-    return ok_runs, rej
+    nruns = sum(len(t["runs"]) for t in trace)
+    skipped = sum(len(t["runs"]) for t in trace if any(o["id"] == t["id"] and o["profile"] == t["profile"] and o["run"] == 0 for o in out))
+    return nruns - skipped - sum(1 for o in out if o["run"]), out
 
 
 def run(ctx):
